@@ -27,9 +27,13 @@ def key_components(fi, key: ast.AST) -> List[set]:
         param = key.args.args[0].arg
         rets = [key.body]
     elif isinstance(key, ast.Name):
-        for n in ast.walk(fi.node):
-            if isinstance(n, ast.FunctionDef) and n.name == key.id:
-                fn = n
+        scopes = [fi.node] + [o.node for o in enclosing(fi)]
+        for sc in scopes:
+            for n in ast.walk(sc):
+                if isinstance(n, ast.FunctionDef) and n.name == key.id:
+                    fn = n
+            if fn is not None:
+                break
         if fn is None:
             return []
         param = fn.args.args[0].arg
@@ -47,12 +51,69 @@ def key_components(fi, key: ast.AST) -> List[set]:
     return out
 
 
+def order_inconsistent_with_equality(repo, ty, elem_type, comps: List[str]) -> str:
+    """'' when the `<` of every named component of elem_type orders exactly what its `==` distinguishes (dataclass(order=True) without
+    a hand-written __lt__, or a primitive); otherwise the reason.  A hand-written __lt__ that does not read the compared fields themselves
+    can leave two unequal values unordered."""
+    if not (isinstance(elem_type, tuple) and elem_type[0] == "cls"):
+        return ""
+    for c in comps:
+        t = ty.member(elem_type, c)
+        if not (isinstance(t, tuple) and t[0] == "cls"):
+            continue
+        node = repo.modules[t[1]].classes[t[2]]
+        lt = [b for b in node.body if isinstance(b, ast.FunctionDef) and b.name == "__lt__"]
+        if not lt:
+            continue
+        fields = [b.target.id for b in node.body if isinstance(b, ast.AnnAssign) and isinstance(b.target, ast.Name)]
+        read = sorted({n.attr for n in ast.walk(lt[0]) if isinstance(n, ast.Attribute) and isinstance(n.value, ast.Name) and n.value.id in ("self", "other")})
+        if not set(fields) <= set(read):
+            return f"`{t[2]}.__lt__` compares ({', '.join(read)}) while `{t[2]}.__eq__` compares its fields ({', '.join(fields)})"
+    return ""
+
+
+def enclosing(fi) -> List:
+    """FuncInfos of the functions a nested function is defined in, innermost first."""
+    out = []
+    q = fi.qualname
+    while ".<locals>." in q:
+        q = q.rsplit(".<locals>.", 1)[0]
+        o = fi.module.funcs.get(q)
+        if o is not None:
+            out.append(o)
+    return out
+
+
+def nested_functions(repo) -> List:
+    """Nested defs of module-level functions (the source model lists nested defs of methods only): they iterate sets as well."""
+    from sa.model import FuncInfo
+
+    out = []
+    for m in repo.modules.values():
+        for q, fi in list(m.funcs.items()):
+            if "." in q:
+                continue
+
+            def rec(node, qual):
+                for ch in ast.iter_child_nodes(node):
+                    if isinstance(ch, (ast.FunctionDef, ast.AsyncFunctionDef)):
+                        q2 = f"{qual}.<locals>.{ch.name}"
+                        if q2 not in m.funcs:
+                            out.append(FuncInfo(m, q2, ch, None))
+                        rec(ch, q2)
+                    elif not isinstance(ch, (ast.ClassDef, ast.Lambda)):
+                        rec(ch, qual)
+
+            rec(fi.node, q)
+    return out
+
+
 def analyse(chk, repo, modules, label: str) -> int:
     ty = Types(repo)
     exc = json.load(open(os.path.join(VERIF, "spec", "exceptions.json")))["order_taint"]
     n_sets = 0
     n_funcs = 0
-    for fi in repo.all_funcs():
+    for fi in list(repo.all_funcs()) + nested_functions(repo):
         if modules is not None and fi.module.name not in modules:
             continue
         n_funcs += 1
@@ -66,18 +127,29 @@ def analyse(chk, repo, modules, label: str) -> int:
                 chk.ok("order-taint", site, desc + " - hash-stable elements, iteration order independent of PYTHONHASHSEED")
                 continue
             fq = f"{fi.module.name}:{fi.qualname}"
-            ex = [e for e in exc if fq in e["functions"]]
+            fq_outer = f"{fi.module.name}:{fi.qualname.split('.<locals>.')[0]}"  # a helper nested in a named function is part of that function
+            ex = [e for e in exc if fq in e["functions"] or fq_outer in e["functions"]]
             if ex and s.key is not None:
                 comps = key_components(fi, s.key)
                 need = set(ex[0]["requires_key_components"])
                 if comps and all(need <= c for c in comps):
-                    chk.ok("order-taint-exception", site, f"{desc}: named exception - every key value contains {sorted(need)} ({ex[0]['reason'][:80]}...)")
+                    # the argument 'tied pairs join the same two residues' needs the order of the key components to be consistent with their
+                    # equality (a != b implies a < b or b < a); computed from the class of the components
+                    incons = order_inconsistent_with_equality(repo, ty, s.elem_type, sorted(need))
+                    if incons and not ex[0].get("assumes"):
+                        chk.violation("order-taint", site, f"{desc}: the key contains {sorted(need)}, but {incons}: unequal values can tie, the tied pairs then differ in a residue and the survivor of a conflict depends on set order (PYTHONHASHSEED)", key=f"{fq_outer}:sorted-key-order")
+                        continue
+                    note = f"; under the stated input assumption only ({incons})" if incons else ""
+                    atext = "C14 exception " + ex[0]["construct"] + ": " + str(ex[0].get("assumes"))
+                    if incons and atext not in chk.assumptions:
+                        chk.assumptions.append(atext)
+                    chk.ok("order-taint-exception", site, f"{desc}: named exception - every key value contains {sorted(need)} ({ex[0]['reason'][:80]}...){note}")
                     continue
                 chk.violation(
                     "order-taint",
                     site,
                     f"{desc}: the sort key no longer contains both residues on every return, so the survivor of a conflict depends on set order (PYTHONHASHSEED)",
-                    key=f"{fq}:sorted-key",
+                    key=f"{fq_outer}:sorted-key",
                     expected=sorted(need),
                     found=[sorted(c) for c in comps],
                 )
@@ -138,22 +210,60 @@ def shared_state(chk) -> None:
     chk.ok("shared-state", "package", "no function mutates a module-level container or rebinds a global")
 
 
+def query_effects(chk) -> None:
+    """A property / cached_property anywhere in the package that changes state reachable from its receiver - e.g. calls .remove() on
+    the list another object's cached_property handed out - makes later answers differ from the first ones: repeated calls on the same
+    input are no longer identical.  (common.py's own classes are covered method by method by c12.check_effects above.)"""
+    from checks import c12
+    from sa.effects import Effects
+
+    repo = chk.repo
+    eng = Effects(repo)
+    n = 0
+    for fi in sorted(repo.all_funcs(), key=lambda f: (f.module.name, f.node.lineno)):
+        if fi.cls is None or "<locals>" in fi.qualname or fi.qualname.endswith(".setter"):
+            continue
+        if fi.module.name == c12.MOD and fi.cls.name in c12.CLASSES:
+            continue
+        if not any(d in ("property", "cached_property", "cache", "lru_cache") for d in fi.decorators):
+            continue
+        n += 1
+        try:
+            writes, _ = eng.analyse(fi)
+        except Exception as ex:
+            chk.error("query-write", fi.where, f"effect analysis failed: {type(ex).__name__}: {ex}")
+            continue
+        for w in writes:
+            chk.violation(
+                "query-write",
+                fi.site(w.node),
+                f"{w.what}" + (f" (through {w.via})" if w.via else "") + f": the query `{fi.qualname}` changes an object it only reads from (for instance the value another cached_property keeps), so the same question asked again - or another query of that object - answers differently within one process",
+                key=f"{fi.module.name}:{fi.qualname}:{norm(w.node)[:80]}",
+            )
+    chk.ok("query-write", "package", f"{n} properties outside common.py's structure classes: none writes to state reachable from its receiver")
+
+
 def run(chk) -> None:
     chk.explanation = (
         "Iteration-order taint analysis over every function of the package: light type inference (annotations, constructors, adds, "
         "comprehensions, modelled externals such as KDTree.query_pairs) gives the element type of every set-typed value; each construct that turns a "
         "set into a sequence (for, comprehension, list/tuple/next/enumerate/zip/join/itertools.*, keyed sorted/min/max, pop) is a source; it is accepted only "
         "if the element type is hash-stable (ints/floats/tuples of such); str, Enum, str-hashed or identity-hashed objects and unknown types are reported. "
-        "One named exception with a checked side condition (spec/exceptions.json)."
+        "Module-level constants are typed from their defining expression in their own module (frozenset('ACGU'), set algebra with a table), names bound by := and names reused for values of "
+        "different types are read through their reaching definitions, helpers nested in a function belong to it. One named exception with checked side conditions (spec/exceptions.json): the sort key "
+        "must contain both residues, and the order of the key components must be consistent with their equality - where it is not (Residue.__lt__ vs __eq__) the exception holds only under the input "
+        "assumption recorded there. Repeated calls: no method of the structure classes and no property anywhere in the package writes to state reachable from its receiver (effects engine), no "
+        "function mutates a module-level container."
     )
     chk.trusted = ["CPython: set iteration order is a function of the hashes and the insertion history", "scipy/pulp/pandas/mmcif internals are deterministic", "dict and OrderedSet preserve insertion order"]
     chk.assumptions = ["int/float/tuple-of-int hashes do not depend on PYTHONHASHSEED"]
-    chk.robust |= {"order-taint", "nondeterministic-value", "receiver-write", "cache-introspection", "shared-state"}
+    chk.robust |= {"order-taint", "nondeterministic-value", "receiver-write", "cache-introspection", "shared-state", "query-write"}
     n = analyse(chk, chk.repo, None, "package")
     # repeated calls: no query changes the object it is asked on, none looks at the cache, no module-level container is consumed
     from checks import c12
 
     c12.check_effects(chk)
+    query_effects(chk)
     shared_state(chk)
     if n < 8:
         chk.error("order-taint", "-", f"only {n} set-typed iteration sites recognised (9 confirmed on the pinned tree): the type inference lost track of the sets")
